@@ -77,11 +77,12 @@ class LFRicAlgorithmInvokeCall(AlgorithmInvokeCall):
         :rtype: str
 
         '''
-        if (len(self.arguments) == 1 and
+        if (not self._name and len(self.arguments) == 1 and
                 isinstance(self.arguments[0], LFRicBuiltinFunctor)):
             # By default the name of the kernel is added if there is
             # only one functor. However we don't add this in LFRic if
-            # the functor is a builtin.
+            # the functor is a builtin. (A name supplied in the invoke
+            # always takes precedence, as it does in the PSy layer.)
             return f"invoke_{self._index}"
         return super()._def_routine_root_name()
 
